@@ -88,13 +88,29 @@ def run(ctx):
     R.analysed["encrypt_path_functions"] = len(path_funcs)
 
     # ---- D2 published = used
-    R.rule("C14-D2 published = used", 4, "the nonce used is element 0 of the result, bytes [0,12) of the asset, and the value under header key 5")
+    R.rule("C14-D2 published = used", 5, "the nonce used is element 0 of the result, bytes [0,12) of the asset, and the value under header key 5")
     for impl in kms_impls(ctx):
         f = kms_encrypt_facts(ctx, impl)
         fi, ret, a = f["fi"], f["ret"], f["aes"][0]
         R.check("C14-D2 published = used", ret is not None and len(ret) == 3 and ret[0] == a.args[1],
                 f"{impl.name}.encrypt returns the nonce it encrypted with", mod=fi.module, node=fi.node, function=ctx.fq(fi),
                 expected="result[0] is the nonce passed to AESGCM.encrypt", found=repr(ret[0])[:160] if ret else "?")
+        # any other cipher object built in the call (Cipher(..., modes.GCM(iv)), a second AEAD call, ...) must use that same nonce
+        others = []
+        for t in [f["out"].value] + list(all_effects(f["out"].effects)):
+            for s_ in subterms(t):
+                if isinstance(s_, App) and s_.op.startswith("call:") and (".modes." in s_.op or s_.op.split(".")[-1] in ("GCM", "CTR", "CBC", "CFB", "OFB", "XTS")):
+                    args = [x for x in s_.args if not (isinstance(x, Const) and isinstance(x.v, tuple) and x.v[:1] == ("site",))]
+                    if args and args[0] not in others:
+                        others.append(args[0])
+                if isinstance(s_, App) and s_.op == "meth:encrypt" and s_ is not a and isinstance(s_.args[0], App) and any(
+                        k in s_.args[0].op for k in ("AESGCM", "ChaCha20Poly1305", "AESCCM", "AESOCB3", "AESSIV", "AESGCMSIV")) and len(s_.args) > 1 \
+                        and s_.args[1] not in others:
+                    others.append(s_.args[1])
+        stray = [x for x in others if ret is None or x != ret[0]]
+        R.check("C14-D2 published = used", not stray, f"{impl.name}.encrypt: every cipher of the call uses the returned nonce", mod=fi.module,
+                node=fi.node, function=ctx.fq(fi), expected="one nonce per call: the one that is returned",
+                found=f"another IV is used: {[repr(x)[:100] for x in stray]}")
     from .c06 import _plus_to_cat
     from sa.terms import cases, cat_parts
     gka = repo.func(ENC, "Encryptor.generate_kms_artifacts")
